@@ -10,6 +10,10 @@ package nutsdb
 func H_C15_Merge() {
 	vSetup()
 	defer vCleanup()
+	// Merge legitimately forgets emptied structures (an emptied set reads "empty" before and "no such
+	// key" after merge + reopen): empty and error are one outcome here (§4.1)
+	vObsStrict = false
+	defer func() { vObsStrict = true }()
 	mode, rw := EntryIdxMode(vParam("mode")), RWMode(vParam("rw"))
 	segs := []int64{60, 100}
 	seg := segs[vChoose(vParam("nseg"))]
